@@ -446,6 +446,11 @@ pub fn gen(rng: &mut ChaCha20Rng, n: usize, thorough: bool) -> Vec<Case> {
             let b = if rng.gen_range(0..3) == 0 { small[rng.gen_range(0..small.len())].clone() } else { mutate(rng, a, &mut tags) };
             out.push(mk(format!("C10 x-merge {} {}", hexd(a), hexd(&b)), &["ep:explore-pset-merge", "src:pairs"], true));
         }
+        // operands WITHOUT a unique id (an output that has neither amount nor asset: extract_tx fails alike on both sides, two equal Err values pass
+        // the gate of merge) and of different map counts, in both directions (seeded C10-r6-4: positional loops indexed by the other operand's length)
+        for (ia, oa, ib, ob) in [(1usize, 1usize, 1usize, 1usize), (1, 1, 2, 1), (1, 1, 1, 2), (2, 2, 1, 1), (1, 2, 3, 3), (0, 1, 2, 2)] {
+            out.push(mk(format!("C10 x-mergeshape {} {} {} {} {}", ia, oa, ib, ob, rng.gen::<u32>()), &["ep:explore-pset-merge", "src:no-unique-id-different-shapes"], true));
+        }
         use elements::bitcoin::base64::prelude::{Engine as _, BASE64_STANDARD};
         for _ in 0..n / 2 {
             let b = &small[rng.gen_range(0..small.len())];
